@@ -281,6 +281,15 @@ def _analyze_command(
     for position, word in enumerate(node.words):
         parts = getattr(word, "parts", [])
         word_value = getattr(word, "value", "")
+        # NAME[subscript]=value: bash evaluates the subscript as arithmetic, expansions
+        # included, even inside single quotes (a['$(cmd)']=1 runs cmd)
+        subscript = _ASSIGNMENT_RE.match(word_value)
+        if subscript and subscript.group(1):
+            decisions.extend(
+                _analyze_string_cmdsubs(
+                    subscript.group(1)[1:-1], config, cwd, remote=remote
+                )
+            )
         # Check if this is a pure cmdsub (entire word is just a cmdsub)
         is_pure_cmdsub = (
             len(parts) == 1
